@@ -261,6 +261,9 @@ package transports
 //@   dyncall fn noeffect
 //@   modifies *
 //@   ensures [C12.ws.close] calls((*types.WebSocketConn).Close) == 1 && (fn != nil ==> calls(fn) == 1 && before(fn, 1, (*types.WebSocketConn).Close, 1))
+// DoClose is reached from the writer itself (a write error closes the session synchronously, under the writer's lock): it
+// must not wait for that lock
+//@   ensures [C12.ws.closenolock] calls((*sync.Mutex).Lock) == 0
 
 // ---- webtransport transport (C01 outbound): the send loop has the same shape as the websocket one. The per-message
 // writer and the prepared-message path drive the framing layer of package webtransport, whose write paths are proved
